@@ -568,7 +568,7 @@ func (p *Process) startReconcile(c *Ctrl, r reconcile.Request) {
 			return
 		}
 		for _, o := range s.Oracles {
-			o.OnReconcileEnd(s, info)
+			s.guardOracle(o.Name()+".OnReconcileEnd", func() { o.OnReconcileEnd(s, info) })
 		}
 		if s.EvLog != nil && s.EvLog.keep {
 			s.EvLog.Lines = append(s.EvLog.Lines, fmt.Sprintf("  # rec %s %s -> res=%+v err=%v at %s", c.Name, r, res, err, s.Now().Format("15:04:05.000")))
